@@ -961,12 +961,20 @@ type pendingTarget struct {
 // arguments are all defined before the loop.
 func (vc *VC) preciseCallTargets(fr *Frame, c *Contract, cc *ssa.CallCommon, st *State) (out []pendingTarget, ok bool) {
 	const unav = "?UNAV"
+	const freshMark = "?FRESH"
 	poison := func(t types.Type) Val {
 		v := Val{T: t}
 		for range layoutOf(t).Leaves {
 			v.L = append(v.L, unav)
 		}
 		return v
+	}
+	poisonFor := func(a ssa.Value) Val {
+		if _, isAlloc := a.(*ssa.Alloc); isAlloc {
+			// an object allocated inside the loop: whatever the callee assigns in it is fresh state
+			return Val{T: a.Type(), L: []string{freshMark}}
+		}
+		return poison(a.Type())
 	}
 	var args []Val
 	if cc.IsInvoke() {
@@ -983,7 +991,7 @@ func (vc *VC) preciseCallTargets(fr *Frame, c *Contract, cc *ssa.CallCommon, st 
 		default:
 			v, have := fr.vals[a]
 			if !have {
-				v = poison(a.Type())
+				v = poisonFor(a)
 			}
 			args = append(args, v)
 		}
@@ -1007,6 +1015,8 @@ func (vc *VC) preciseCallTargets(fr *Frame, c *Contract, cc *ssa.CallCommon, st 
 			for _, t := range ts {
 				if strings.Contains(t.key, unav) {
 					t.whole, t.key = true, ""
+				} else if strings.Contains(t.key, freshMark) {
+					t.whole, t.key, t.freshOnly = true, "", true
 				}
 				out = append(out, pendingTarget{t: t, reads: reads})
 			}
